@@ -1,4 +1,4 @@
-import AtreeProofs.Props.C03WorldBytes
+import AtreeProofs.Props.C03WorldBytesFinal
 import AtreeProofs.WorldCodec.LeafDec
 import AtreeProofs.World.PersistScenario
 /-
@@ -51,8 +51,8 @@ theorem histB8 : ∃ s, HistB D t8.1 t8.2 s := by
   have h8 := HistB.req h7 (Req.arrInsert (D := D) handleR7 hv8 run8)
   exact ⟨_, h8⟩
 
-/-- the byte-level commit / reopen theorem applies to the depth-3 world `t8` -/
-example (hdeep : DeepSteps D) (s : St Slab (SlabID × Bytes)) (h : HistB D t8.1 t8.2 s) :=
-  C03WB.world_bytes_commit_reopen hdeep h leaf8 side8.at .det [] []
+/-- the byte-level commit / reopen theorem applies to the depth-3 world `t8` (no hypothesis left) -/
+example (s : St Slab (SlabID × Bytes)) (h : HistB D t8.1 t8.2 s) :=
+  C03WBF.world_bytes_commit_reopen D h leaf8 side8.at .det [] []
 
 end Atree.BytesScenario
